@@ -174,6 +174,12 @@ func runConc(args []string) int {
 					sk, _ := shortK.ECPrivKey()
 					put("short.priv", hx(sk.Serialise()))
 				}
+				// reads that must stay reads: the empty path returns the receiver itself
+				dpk, _ := master.DerivePublicKeyFromPath("")
+				put("xkey.dpub-empty", hx(dpk))
+				// the self-addition branch of the affine adder (reached by Add(P,P) and by crafted signatures)
+				ax, ay := bec.S256().Add(pub.X, pub.Y, pub.X, pub.Y)
+				put("add.self", nhx(ax)+nhx(ay))
 				// decoders on malformed and well-formed strings at the same time (scratch objects recycled through a
 				// pool on an error path would be handed to two goroutines)
 				base58.Decode("not*base58")
